@@ -391,6 +391,7 @@ func freshFailThenRewrite(w *World, target *WSeg, k int, B []byte, desc string, 
 	var err error
 	if target.Kind == model.Built && target.Def.Store == StoreBuilt {
 		docs := ExpandBatch(target.Def, target.Idx)
+		PreBuild(w.Impl, len(docs))
 		pi = Guard(func() {
 			seg, _, err = w.Impl.New(ToSegmentDocs(docs, w.DV, sched), model.NormFn(target.Def.Norm), target.Def.Mode)
 		})
